@@ -273,8 +273,8 @@ def run_plan(plan: dict, replay=None) -> dict:
         after_build(nodes0)
         viol += holder.get("config_viol", [])
         try:
-            nodes2 = {n: ProbeNode.from_info(nodes0[n].info, idx=nodes0[n].idx) for n in names}
-            for n in names:
+            nodes2 = {n: ProbeNode.from_info(nodes0[n].info, idx=nodes0[n].idx) for n in nodes0}
+            for n in nodes0:
                 nodes2[n].connect_from_info(nodes0[n].info.inputs, nodes2)
             v2, _ = check_config(nodes2, model, names)
             for x in v2:
@@ -320,8 +320,8 @@ def run_plan(plan: dict, replay=None) -> dict:
                     viol.append(dict(clause="c16-first-start-equals-configured-phase", signature="c16-sim-phase", node=names[i], start=float(b[0]), phase=holder["phases"][i]))
         # (3) info round trip
         try:
-            nodes2 = {n: ProbeNode.from_info(ro.nodes[n].info, idx=ro.nodes[n].idx) for n in names}
-            for n in names:
+            nodes2 = {n: ProbeNode.from_info(ro.nodes[n].info, idx=ro.nodes[n].idx) for n in ro.nodes}  # (same dict order as the original)
+            for n in ro.nodes:
                 nodes2[n].connect_from_info(ro.nodes[n].info.inputs, nodes2)
             v2, _ = check_config(nodes2, model, names)
             for x in v2:
